@@ -2691,7 +2691,8 @@ class Processor:
                 for idx, item in enumerate(data):
                     if item is reference_node:
                         if (hasattr(item, "anchor") or
-                                (data is parent and idx == parentref)):
+                                (data is parent and parentref in (
+                                    idx, idx - len(data)))):
                             data[idx] = replacement_node
                     else:
                         recurse(item, parent, parentref, reference_node,
